@@ -14,7 +14,15 @@ from core import Check, Infra, to_frac
 np.seterr(all="ignore")
 warnings.filterwarnings("ignore")
 
-THEOREMS = []   # filled below once the Lean side is registered
+THEOREMS = [
+    "Yaw.C01.fine_counts_exact", "Yaw.C01.limit_sum_exact", "Yaw.C01.tree_pair_count_exact",
+    "Yaw.C01.weighted_contribution", "Yaw.C01.iterPairs_complete", "Yaw.C01.iterPairs_exactly_once",
+    "Yaw.C01.emit_guard", "Yaw.C01.diag_value", "Yaw.C01.pruned_sep", "Yaw.C01.linked_refl_symm",
+    "Yaw.C01.link_tie_witness", "Yaw.C01.count_pairs_eq_spec_partial", "Yaw.C01.glue_pinned",
+    "Yaw.PC.pruned_pairs_empty", "Yaw.PC.pruned_pairs_empty_notie", "Yaw.PC.cntLe_split", "Yaw.PC.cnt_split",
+    "Yaw.PC.argminAbs_mem", "Yaw.PC.columns_perm",
+]
+KERNELS = ["k_paircount"]
 RULE = ("catalog sets sharing patch centres (1..6 patches; base position on the equator, across RA=0, on either pole; "
         "compact / wide / mixed patch extents; data vs randoms of different size and extent; integer weights or none; "
         "redshifts incl. exact bin edges) x configurations (1..3 scales incl. overlapping, units rad/deg/arcmin/kpc/Mpc/"
@@ -128,6 +136,84 @@ def compare(ck, label, nc_list, cat1, cat2, cfgkw, cosmology, N, binned2, rep):
     return "ok", counts
 
 
+def tie_requests(ck, config, cfgkw, cats, kind, ci, rng):
+    """requests that tie the Lean model of AngularTree.count / PatchLinkage to the real code (comparison (a))"""
+    from yaw.catalog.trees import BinnedTrees, get_ang_bins, logarithmic_mid, parse_ang_limits
+    from yaw.coordinates import AngularDistances
+    from yaw.correlation.measurements import PatchLinkage, get_max_angle
+    from core import fr
+    out = []
+    auto = kind == "auto"
+    links = PatchLinkage.from_catalogs(config, *cats)
+    # -- link predicate on the very floats the implementation compares (glue replicated, see pinFromCatalogs)
+    ref, *others = sorted(cats, key=lambda c: c.get_num_records(), reverse=True)
+    centers, radii = ref.get_centers(), ref.get_radii()
+    for c in others:
+        reach = centers.distance(c.get_centers()) + c.get_radii()
+        radii = AngularDistances(np.maximum(radii.data, reach.data))
+    amax = float(get_max_angle(config).data[0])
+    ids = list(ref.keys())
+    toks, expect = [], []
+    for a, (i, ci_, ri) in enumerate(zip(ids, centers, radii)):
+        d = centers.distance(ci_).data
+        for j, dj, rj in zip(ids, d, radii.data):
+            tot = float(rj) + float(ri.data[0]) + amax
+            if abs(dj - tot) <= 1e-12 * tot:
+                continue        # guard band: float sum vs exact sum
+            toks += [fr(dj), fr(ri.data[0]), fr(rj), fr(amax)]
+            expect.append(j in links.patch_links[i])
+    out.append((f"{ci}.linked", "linked " + str(len(expect)) + " " + " ".join(toks), ("linked", expect)))
+    # -- iteration over the link sets
+    rows = " ".join(f"{i} {len(l) - (1 if i in l else 0)} " + " ".join(str(j) for j in sorted(l) if j != i)
+                    for i, l in links.patch_links.items())
+    emitted = sorted(links.iter_patch_id_pairs(auto=auto))
+    out.append((f"{ci}.iter", f"iterpairs {int(auto)} {len(links.patch_links)} {rows}", ("iter", emitted)))
+    # -- AngularTree.count on real trees
+    mids = config.binning.binning.mids
+    N = len(cats[0])
+    for _ in range(3):
+        i, j, b = rng.randrange(N), rng.randrange(N), rng.randrange(len(mids))
+        t1 = list(BinnedTrees(cats[0][i]))[b] if True else None
+        c2 = cats[0] if auto else cats[1]
+        trees2 = BinnedTrees(c2[j])
+        t2 = trees2.trees[b] if trees2.is_binned() else trees2.trees
+        if t1.tree is None or t2.tree is None or t1.num_records * t2.num_records > 4000:
+            continue
+        amin, amaxs = config.scales.scales.get_angle_radian(mids[b], cosmology=config.cosmology)
+        lims = parse_ang_limits(amin, amaxs)
+        bins = get_ang_bins(lims, config.scales.rweight, config.scales.resolution)
+        chord = AngularDistances(bins).to_3d()
+        x1, x2 = t1.data, t2.data
+        w1 = t1.weights if t1.weights is not None else np.ones(len(x1))
+        w2 = t2.weights if t2.weights is not None else np.ones(len(x2))
+        dist = np.sqrt(((x1[:, None, :] - x2[None, :, :]) ** 2).sum(axis=2))
+        if min(float(np.min(np.abs(dist - t) / t)) for t in chord) < 1e-9:
+            continue
+        impl = t1.count(t2, amin, amaxs, weight_scale=config.scales.rweight, weight_res=config.scales.resolution)
+        toks = [str(len(bins))] + [fr(float(c) ** 2) if False else fr(to_frac(c) ** 2) for c in chord]
+        if config.scales.rweight is not None:
+            om = logarithmic_mid(bins) ** config.scales.rweight
+            toks += ["1"] + [fr(o) for o in om]
+        else:
+            toks += ["0"]
+        toks.append(str(len(lims)))
+        for lo, hi in lims:
+            clo, chi = AngularDistances(np.array([lo, hi])).to_3d()
+            # the limits enter the nearest-edge search as angles; on the squared-chord axis the same edge is nearest
+            ia, ib = int(np.argmin(np.abs(bins - lo))), int(np.argmin(np.abs(bins - hi)))
+            toks += [fr(to_frac(chord[ia]) ** 2), fr(to_frac(chord[ib]) ** 2)]
+        pairs = []
+        for a in range(len(x1)):
+            for c in range(len(x2)):
+                d2 = sum((to_frac(x1[a, k]) - to_frac(x2[c, k])) ** 2 for k in range(3))
+                pairs += [fr(to_frac(w1[a]) * to_frac(w2[c])), fr(d2)]
+        toks.append(str(len(x1) * len(x2)))
+        toks += pairs
+        out.append((f"{ci}.tree{i}.{j}.{b}", "treecount " + " ".join(toks),
+                    ("tree", [float(v) for v in impl], config.scales.rweight is not None)))
+    return out
+
+
 def run_case(ck, rng, root, ci, tier):
     import yaw
     from yaw.catalog.catalog import InconsistentPatchesError
@@ -185,6 +271,20 @@ def run_case(ck, rng, root, ci, tier):
     except InconsistentPatchesError:
         ck.count("rejected:inconsistent-patches")
         return
+    except Exception as exc:  # noqa: BLE001
+        ck.case(None, desc)
+        ck.add_violation(f"{kind}correlate raised {type(exc).__name__}: {exc} on catalogs sharing their patch centres "
+                         "and an accepted configuration (no pair counts returned)", dict(rep, what="raises"))
+        return "bad"
+    if ci < ck.extra.get("tie_cases", 6) and ck.extra.get("tie_enabled", True):
+        try:
+            ck.extra.setdefault("tie_reqs", []).extend(
+                tie_requests(ck, config, cfgkw, cats[:2] if kind == "auto" else [cats[0], cats[1], cats[3]],
+                             kind, ci, rng))
+        except InconsistentPatchesError:
+            pass
+        except Exception as exc:  # noqa: BLE001
+            ck.add_tie_break("model tie could not be evaluated", {"error": f"{type(exc).__name__}: {exc}"})
     nontriv = False
     status = "ok"
     for name, a, b, binned2 in terms:
@@ -207,7 +307,7 @@ def run_case(ck, rng, root, ci, tier):
 
 
 def run(prop, tier, seed, replay):
-    ck = Check(prop, tier, seed, kernels=[], theorems=THEOREMS, lean_modules=[], rule=RULE,
+    ck = Check(prop, tier, seed, kernels=KERNELS, theorems=THEOREMS, lean_modules=["YawVerif.Props.C01"], rule=RULE,
                assumptions=["scipy KDTree.count_neighbors returns the exact weighted neighbour counts for the stored "
                             "float vectors (validated against the O(n^2) oracle)",
                             "astropy distances are evaluated independently by the oracle"])
@@ -224,4 +324,29 @@ def run(prop, tier, seed, replay):
                     C.remove(root / f"c{ci}_{k}")
     finally:
         C.remove(root)
+    # ---- comparison (a): implementation vs the Lean model of the implementation -----------------------
+    tie = ck.extra.pop("tie_reqs", [])
+    ck.extra.pop("tie_cases", None)
+    if tie:
+        ans = ck.driver("GenPairCount", [f"{rid} {req}" for rid, req, _ in tie])
+        if ans is not None:
+            for (rid, req, exp), a in zip(tie, ans):
+                ck.count(f"tie:{exp[0]}")
+                if exp[0] == "linked":
+                    got = [t == "1" for t in a.split()]
+                    if got != exp[1]:
+                        ck.add_tie_break("link predicate: implementation vs generated kernel", {"request": rid})
+                elif exp[0] == "iter":
+                    toks = [int(t) for t in a.split()]
+                    got = sorted(zip(toks[0::2], toks[1::2]))
+                    if got != [tuple(p) for p in exp[1]]:
+                        ck.add_tie_break("iter_patch_id_pairs: implementation vs model", {"request": rid})
+                else:
+                    vals = [to_frac(0) + __import__("fractions").Fraction(t) for t in a.split()]
+                    ok = len(vals) == len(exp[1]) and all(
+                        (abs(float(v) - x) <= 1e-12 * max(abs(x), 1e-300)) if exp[2] else (to_frac(x) == v)
+                        for v, x in zip(vals, exp[1]))
+                    if not ok:
+                        ck.add_tie_break("AngularTree.count: implementation vs model",
+                                         {"request": rid, "impl": exp[1], "model": [float(v) for v in vals]})
     return ck.finish()
